@@ -401,9 +401,62 @@ def check_after_dtlocal(iname, mname, flux, rname, mspec, bc, idx, res=None):
     return out
 
 
+def check_drivers(iname, mname, flux, rname, mspec, bc, idx, res=None):
+    """the library's drivers instead of hand-made steps: every field returned by solve (with a snapshot, without) and by the older driver
+    solve_legacy (two save times off the step grid) has the integrals of the initial field"""
+    spec, kind = MODELS[mname]
+    cls = space.integrators()[iname]
+    mesh = space.mesh_spec(mspec)
+    model, disc = space.build_1d(spec, flux, rname, mesh, bc, bc)
+    al = space.cons_alphabet(kind, "mild")
+    f0 = space.field_from_letters(model, mesh, al, idx)
+    vol = np.asarray(mesh.vol(), float)
+    out = []
+    try:
+        with np.errstate(all="ignore"), core.time_limit(10.0):
+            dt0 = float(np.min(disc.calc_timestep(f0, 0.3)))
+            if not np.isfinite(dt0):
+                return out
+            got = [("solve+snapshot", g) for g in cls(mesh, disc).solve(f0, 0.3, [1.4 * dt0], stop={"maxit": 3, "tottime": 1e30}).solutions]
+            got += [("solve", g) for g in cls(mesh, disc).solve(f0, 0.3, stop={"maxit": 3}).solutions]
+            # the legacy driver has no iteration limit (it never returns once the time step is NaN): only where the three iterations above stay admissible
+            if all(admissible(kind, g) for _, g in got):
+                got += [("solve_legacy", g) for g in cls(mesh, disc).solve_legacy(f0, 0.3, [1.4 * dt0, 2.3 * dt0])]
+    except Exception as e:
+        return [("C01/drivers/%s/exception" % iname, "raised %r" % (e,))]
+    if res is not None:
+        res.transitions += 3
+    I0 = integrals(f0, vol)
+    sc = np.array([float(np.sum(vol * np.abs(d))) for d in f0.data]) + 1e-300
+    watch = list(range(model.neq)) if bc == "per" else ([0, 2] if kind == "euler1d" else [0])
+    tol = 4e-6 if space.is_implicit(cls) else 1024 * EPS
+    for entry, g in got:
+        if not admissible(kind, g):
+            if res is not None:
+                res.skipped += 1
+            continue
+        err = (np.abs(integrals(g, vol) - I0) / sc)[watch].max()
+        if res is not None:
+            res.evals += 1
+            res.worst("drivers/%s" % ("implicit" if space.is_implicit(cls) else "explicit"), err / tol)
+        if not err <= tol:
+            out.append(("C01/drivers/%s/%s/%s/%s" % (entry, iname, mname, bc), "%s %s %s %s mesh %r bc %s data %r: the field returned by %s at t=%r has integrals off by %.3g relative" % (
+                iname, mname, flux, rname, mspec, bc, idx, entry, g.time, err)))
+            break
+    return out
+
+
 def shard_solve(arg):
     iname, mname, flux, rname, tier = arg
     res = core.Res()
+    kind0 = MODELS[mname][1]
+    for bc0 in ["per"] + (["sym"] if kind0 in ("euler1d", "shallowwater") else []):
+        for idx in itertools.product(range(3), repeat=3):
+            if len(set(idx)) == 1:
+                continue
+            res.nontrivial += 1
+            for s, w in check_drivers(iname, mname, flux, rname, ("w", (0.5, 2.0, 1.0)), bc0, idx, res):
+                res.violation(s, w, {"kind": "drivers", "integrator": iname, "model": mname, "flux": flux, "recon": rname, "bc": bc0, "idx": list(idx)})
     for idx in ((0, 1, 2), (2, 0, 0), (1, 2, 1)):
         for s, w in check_after_dtlocal(iname, mname, flux, rname, ("w", (0.5, 2.0, 1.0)), "per", idx, res):
             res.violation(s, w, {"kind": "afterdtl", "integrator": iname, "model": mname, "flux": flux, "recon": rname, "idx": list(idx)})
@@ -543,6 +596,8 @@ def replay(case):
         g = tuple(a[3])
         v = check_op_2d(a[1], a[2], g, a[4], space.huge_idx(g[0] * g[1], case["pattern"], 3))
         return [(s_.replace("C01/op2d/", "C01/op2d/very-large-grid/"), w[:600]) for s_, w in v]
+    if k == "drivers":
+        return check_drivers(case["integrator"], case["model"], case["flux"], case["recon"], ("w", (0.5, 2.0, 1.0)), case["bc"], tuple(case["idx"]))
     if k == "afterdtl":
         return check_after_dtlocal(case["integrator"], case["model"], case["flux"], case["recon"], ("w", (0.5, 2.0, 1.0)), "per", tuple(case["idx"]))
     if k == "solve":
